@@ -1209,6 +1209,11 @@ rrul_fill_yly(echs_instant_t *restrict tgt, size_t nti, rrulsp_t rr)
 					x = echs_instant_attach_scale(x, srcsca);
 
 					tries = 64U;
+					if (UNLIKELY(res && rr->shift &&
+						     !echs_instant_lt_p(tgt[res - 1U], x))) {
+						/* shifted onto one we've got already */
+						continue;
+					}
 					tgt[res + GRP_CCH_OFF] = (echs_instant_t){.y = y};
 					tgt[res++] = x;
 				}
@@ -1421,6 +1426,11 @@ rrul_fill_mly(echs_instant_t *restrict tgt, size_t nti, rrulsp_t rr)
 					x = echs_instant_attach_scale(x, srcsca);
 
 					tries = MLY_TRIES;
+					if (UNLIKELY(res && rr->shift &&
+						     !echs_instant_lt_p(tgt[res - 1U], x))) {
+						/* shifted onto one we've got already */
+						continue;
+					}
 					tgt[res + GRP_CCH_OFF] = (echs_instant_t){.y = y, .m = m};
 					tgt[res++] = x;
 				}
